@@ -23,6 +23,7 @@ DagMethods == {"ExecuteDAGModel"}
 
 NM3 == {<<n, m>> : n \in 0..3, m \in 0..3} \cup {<<-1, 1>>, <<1, -1>>, <<2, 3>>}
 NMq == {<<1, 1>>, <<1, 2>>, <<2, 1>>, <<0, 1>>, <<2, 2>>, <<1, 0>>}
+NMs == {<<1, 1>>, <<1, 2>>, <<2, 1>>, <<0, 2>>}
 NM4 == {<<n, m>> : n \in 0..4, m \in 0..4} \cup {<<-1, 1>>, <<1, -1>>}
 
 Layer(S, w) == UNION {[1..i -> S] : i \in 0..w}
